@@ -181,3 +181,39 @@ func (w *World) ExpireStalledRead() bool {
 
 // FragmentLocked is Fragment for callers which hold the world lock.
 func (c *Conn) FragmentLocked(chunks []int) { c.chunks = append(c.chunks, chunks...) }
+
+// WritersParkedAny tells whether a Write is parked on any connection.
+func (w *World) WritersParkedAny() bool {
+	w.mu.Lock()
+	defer w.mu.Unlock()
+	for _, c := range w.Conns {
+		if c.writersParked > 0 {
+			return true
+		}
+	}
+	return false
+}
+
+// OpenAllGates disarms every hook gate and releases whoever is parked there.
+func (w *World) OpenAllGates() {
+	w.mu.Lock()
+	for _, g := range w.gates {
+		g.armed = 0
+		g.release += g.parked
+	}
+	w.cond.Broadcast()
+	w.mu.Unlock()
+	w.Await(func() bool {
+		for _, g := range w.gates {
+			if g.parked > 0 {
+				return false
+			}
+		}
+		return true
+	})
+	w.mu.Lock()
+	for _, g := range w.gates {
+		g.release = 0
+	}
+	w.mu.Unlock()
+}
